@@ -36,6 +36,23 @@ pub struct LongHaul {
 pub enum Case {
     Pair(PairScenario),
     LongHaul { long_haul: LongHaul },
+    /// a real Client and Server; packets submitted through the public API, also while the handshake is pending
+    Endpoints { endpoints: crate::sim::epstream::EpStream },
+}
+
+fn run_endpoints(c: &crate::sim::epstream::EpStream) -> CaseResult {
+    let out = crate::sim::epstream::run_epstream(c);
+    let mut classes: Vec<&'static str> = vec!["endpoints"];
+    for d in 0..2 {
+        if let Err(v) = crate::sim::epstream::check_order(c, &out, d) {
+            return CaseResult { violation: Some(v), nontrivial: true, classes };
+        }
+    }
+    if c.pre_sends.len() >= 2 && out.connected {
+        classes.push("endpoints_packets_submitted_before_the_connection_was_established");
+    }
+    let n = out.delivs[0].len() + out.delivs[1].len();
+    CaseResult::ok(out.faulted > 0 && n >= 2, classes)
 }
 
 /// What the stale-ack history left behind (shared with C02).
@@ -338,7 +355,8 @@ impl Check for C01 {
         let long_haul = (any::<u64>(), prop_oneof![Just(0u32), 0u32..=PKT_MASK], prop_oneof![Just(0u32), (0u32..100_000).prop_map(|d| u32::MAX - d), any::<u32>()], prop_oneof![Just(0u32), 0u32..20_000], 2_200u16..5_000, 0u16..3000, prop_oneof![Just(0u8), 0u8..50], 1u8..6)
             .prop_map(|(seed, pkt_base, frm_base, latency_us, hold_ms, delta, reliable_pct, channels)| Case::LongHaul { long_haul: LongHaul { seed, pkt_base, frm_base, latency_us, hold_ms, delta, reliable_pct, channels, stale_ack: seed % 3 == 0 } });
         // (a long-haul case moves more than a million packets: seconds each, hence few)
-        prop_oneof![tier.pick(2000, 3000) => pair_strategy(tier).prop_map(Case::Pair), 1 => long_haul].boxed()
+        let endpoints = crate::sim::epstream::epstream_strategy(tier.pick(150, 400)).prop_map(|endpoints| Case::Endpoints { endpoints });
+        prop_oneof![tier.pick(2000, 3000) => pair_strategy(tier).prop_map(Case::Pair), 1 => long_haul, tier.pick(300, 450) => endpoints].boxed()
     }
 
     fn extra(&self, tier: Tier, seed: u64) -> ExtraResult {
@@ -354,7 +372,7 @@ impl Check for C01 {
     }
 
     fn rule(&self) -> String {
-        "two case kinds. LongHaul (a few per run): one connection carries 2^20 + k tiny packets (Unreliable with 0-50% Reliable, 1-5 channels) over a loss-free link, so that the 20-bit packet ids come round once; early on acknowledgements are lost for 2.2-5 s, and network duplicates of every frame the sender emits in that phase (data frames, and sync frames naming frame / packet ids) are delivered only at the very end, timed so that the packet ids they carry lie 0-3000 ahead of the receiver's window base again. Pair: SimPair scenario (two HalfConnections under a virtual clock): window sizes 2^k, base ids biased to within 9000 of the 20-bit / 32-bit wrap, traffic in both directions on up to 64 channels in all four modes with sizes 0..several fragments, per-frame fates on both links (deliver with extra delay / drop / duplicate / 1-4 bit corruption, loss bursts), arbitrary tick cadence incl. dt=0, skipped steps and repeated flushes. Non-trivial = at least one frame dropped, duplicated, corrupted or overtaken AND at least two deliveries. Distinct = distinct serialised scenario.".into()
+        "three case kinds. Endpoints (about one in eight): a real Client and Server on a link with per-datagram fates (delay, drop, duplicate); the client application submits 0-11 packets right after connect(), before its first step (Client::send queues them while the handshake is pending), then both applications submit packets of all modes on up to 64 channels through the public API; what each application is handed must be byte-exact submissions of its peer, at most once, per channel in submission order. LongHaul (a few per run): one connection carries 2^20 + k tiny packets (Unreliable with 0-50% Reliable, 1-5 channels) over a loss-free link, so that the 20-bit packet ids come round once; early on acknowledgements are lost for 2.2-5 s, and network duplicates of every frame the sender emits in that phase (data frames, and sync frames naming frame / packet ids) are delivered only at the very end, timed so that the packet ids they carry lie 0-3000 ahead of the receiver's window base again. Pair: SimPair scenario (two HalfConnections under a virtual clock): window sizes 2^k, base ids biased to within 9000 of the 20-bit / 32-bit wrap, traffic in both directions on up to 64 channels in all four modes with sizes 0..several fragments, per-frame fates on both links (deliver with extra delay / drop / duplicate / 1-4 bit corruption, loss bursts), arbitrary tick cadence incl. dt=0, skipped steps and repeated flushes. Non-trivial = at least one frame dropped, duplicated, corrupted or overtaken AND at least two deliveries. Distinct = distinct serialised scenario.".into()
     }
 
     fn assumptions(&self) -> Vec<String> {
@@ -368,6 +386,7 @@ impl Check for C01 {
         let sc = match case {
             Case::Pair(sc) => sc,
             Case::LongHaul { long_haul } => return run_long_haul(long_haul),
+            Case::Endpoints { endpoints } => return run_endpoints(endpoints),
         };
         let mut sc = sc.clone();
         sc.normalize();
